@@ -97,6 +97,11 @@ def real_cases(task):
         S = {"propertyNames": {"maxLength": 1, "pattern": "^a"}, "properties": {"ab": {"type": "string"}, "b": {"items": {"type": "integer"}}},
              "minProperties": rng.choice([1, 4])}
         I = rng.choice([{"ab": 1, "c": 2}, {"ab": "s", "b": [1, "x"], "cc": 3}, {"ab": {"ab": 1}}])
+    elif special < 0.25:
+        # an unmet property dependency next to errors inside the dependent property's own value
+        S = {"dependencies": {"foo": ["bar"] if d >= 4 else "bar", "arr": ["zip"] if d >= 4 else ["zip"]},
+             "properties": {"foo": {"properties": {"y": {"type": "integer"}}}, "arr": {"items": {"type": "integer"}}}}
+        I = rng.choice([{"foo": {"x": 1, "y": "s"}}, {"foo": {"x": 1}}, {"arr": [1, "two", 3]}, {"arr": [1, 2], "foo": {"x": {"z": 1}, "y": None}}])
     else:
         S = g.schema()
         I = g.instance(S)
